@@ -66,7 +66,7 @@ func c04Specs(tier string, seed int) []c04Spec {
 	iso := func(y, m, d int) string { return fmt.Sprintf("%04d-%02d-%02d", y, m, d) }
 	phases := []int{1995, 1996, 1999, 2003} // start years: every leap phase incl. a window over 2000
 	if tier == "thorough" {
-		phases = []int{1995, 1996, 1997, 1998, 1999, 2000, 2003, 2007}
+		phases = []int{1993, 1994, 1995, 1996, 1997, 1998, 1999, 2000, 2001, 2003, 2004, 2007, 2011, 2012}
 	}
 	for layout := 0; layout < 3; layout++ {
 		for _, y := range phases {
@@ -173,7 +173,7 @@ func init() {
 			if t == "quick" {
 				return "3 layouts x 4 start years (all leap phases, window over 2000) x {windows of 1-3 years x 3 start days x 4 series starts x 2 end days; 6 normalisation cases; 31 non-covering shapes}"
 			}
-			return "3 layouts x 8 start years x {windows of 1-4 years x 3 start days x 4 series starts x 2 end days; 6 normalisation cases; 31 non-covering shapes}"
+			return "3 layouts x 14 start years x {windows of 1-4 years x 3 start days x 4 series starts x 2 end days; 6 normalisation cases; 31 non-covering shapes}"
 		},
 		Budget: func(t string) time.Duration {
 			if t == "quick" {
